@@ -19,6 +19,8 @@ Oracles
   (c) assertions inside targets: if brute force reaches one within d calls, halmos must print the
       "Assertion failure detected in" report, its sequence must replay, and the verdict must not
       be a clean PASS;
+  (e) filters: the (contract, function) pairs that the frontier computation executes, and the
+      senders its sender condition admits, are exactly those of the filter model;
   (d) state merging: the verdicts must be the same when state de-duplication is disabled in the
       harness process, and when the functions are listed in another order in the artifacts.
 """
@@ -462,14 +464,52 @@ class NoMerge:
         self.M.get_state_id = self.orig
 
 
+GETTERS = {"targetSenders()", "excludeSenders()", "targetContracts()", "excludeContracts()", "targetSelectors()", "excludeSelectors()"}
+
+
+class TargetLog:
+    """harness-side: records which (contract, function) pairs the frontier computation executes and
+    which of the candidate senders its sender condition admits"""
+
+    def __enter__(self):
+        import z3
+
+        import halmos.__main__ as M
+
+        self.M, self.orig = M, M.run_target_function
+        self.calls = set()
+        self.senders = {}
+
+        def wrapped(args, ex, addr, abi, fun_info, tx_origin, msg_sender, msg_value, msg_sender_cond=None):
+            if fun_info.sig not in GETTERS:
+                a = addr.as_long() if hasattr(addr, "as_long") else int(addr)
+                self.calls.add((a, fun_info.sig))
+                for s_ in SENDERS + [OTHER]:
+                    if msg_sender_cond is None:
+                        ok = True
+                    else:
+                        v = z3.simplify(z3.substitute(msg_sender_cond, (msg_sender, z3.BitVecVal(s_, 160))))
+                        ok = True if z3.is_true(v) else False if z3.is_false(v) else None
+                    self.senders.setdefault(s_, set()).add(ok)
+            return self.orig(args, ex, addr, abi, fun_info, tx_origin, msg_sender, msg_value, msg_sender_cond)
+
+        M.run_target_function = wrapped
+        return self
+
+    def __exit__(self, *a):
+        self.M.run_target_function = self.orig
+
+
 def run_halmos(case, order=0, nomerge=False):
     cj, others = build(case, order)
     a = e2e.mk_args(invariant_depth=case["depth"], solver_timeout_assertion=30.0)
-    if nomerge:
-        with NoMerge():
+    with TargetLog() as tl:
+        if nomerge:
+            with NoMerge():
+                r = e2e.run(cj, args=a, others=others)
+        else:
             r = e2e.run(cj, args=a, others=others)
-    else:
-        r = e2e.run(cj, args=a, others=others)
+    r.target_log = tl
     return cj, r
 
 
@@ -500,6 +540,19 @@ def run_case(case, acc=None):
         if acc is not None:
             acc.exclude("no-target-contracts")
         return []
+    # (e) filters: the (contract, function) pairs executed and the senders admitted are exactly the
+    #     model's (observed at the call of run_target_function)
+    if case["depth"] >= 1:
+        want = {(addr, sig) for _, addr, fl in rm.targets for sig, _, _ in fl}
+        got = r.target_log.calls
+        if got != want:
+            names = {a_: n_ for n_, a_ in rm.addrs.items()}
+            fmt = lambda xs: sorted(f"{names.get(a_, hex(a_))}.{s_}" for a_, s_ in xs)  # noqa: E731
+            fails.append((["filters", "target-functions", "extra" if got - want else "missing"], f"explored but not selected: {fmt(got - want)}; selected but not explored: {fmt(want - got)}; filters={case['filters']}"))
+        for s_, oks in r.target_log.senders.items():
+            if oks != {rm.sender_ok(s_)}:
+                fails.append((["filters", "senders"], f"sender {hex(s_)}: halmos admits {sorted(map(str, oks))}, model {rm.sender_ok(s_)}; filters={case['filters']}"))
+                break
     # (a) completeness
     for i, seq in breaks.items():
         if v[i] != 1:
